@@ -45,19 +45,22 @@ def assemble_rule(ctx):
 
     repo = ctx.repo
     mod = repo.module(FORMS)
-    r2 = ctx.rule("R13.2", "Assemble interpreted: the sparse matrix / vector of a form is the scatter-add of Integrate_e over the group's dof maps (dof_n = 1 and 2)", min_instances=4)
+    r2 = ctx.rule("R13.2", "Assemble interpreted: the sparse matrix / vector of a form is the scatter-add of Integrate_e over the group's dof maps (dof_n = 1 and 2, real and complex element arrays)", min_instances=6)
     ge = repo.cls("EasyFEA.FEM._group_elem._GroupElem")
     conn = [[0, 1, 2], [1, 3, 2]]
     Nn = 4
     for cname, bil in (("BiLinearForm", True), ("LinearForm", False)):
         ci = mod.classes[cname]
         f = ci.methods["Assemble"]
-        for dof_n in (1, 2):
+        for dof_n, cplx in ((1, False), (2, False), (1, True)):
             r2.instance(fn=f.qualname)
             c = XArray((2, 3), [n for row in conn for n in row])
             g = XObj(ge, {"nPe": 3, "Ne": 2, "Ncoords": Nn, "connect": c, ge.mangle("__connect"): c})
             n = 3 * dof_n
-            X = XArray((2, n, n) if bil else (2, n, 1), [Poly.var(f"x{e}_{i}_{j}") for e in range(2) for i in range(n) for j in range(n if bil else 1)])
+            from ..xeval import IMAG as _IMAG
+
+            # (a complex-valued form - a damped Helmholtz operator - hands out complex element arrays: x + I y)
+            X = XArray((2, n, n) if bil else (2, n, 1), [Poly.var(f"x{e}_{i}_{j}") + (_IMAG * Poly.var(f"y{e}_{i}_{j}") if cplx else Poly()) for e in range(2) for i in range(n) for j in range(n if bil else 1)])
             fld = SimpleNamespace(dof_n=dof_n, groupElem=g)
             obj = XObj(ci, {"Integrate_e": lambda field=None, X=X: X})
 
@@ -68,11 +71,16 @@ def assemble_rule(ctx):
 
             I = Interp(repo)
             I.call_hook = hook
-            key = f"{cname}:dof_n={dof_n}"
+            key = f"{cname}:dof_n={dof_n}" + (":complex" if cplx else "")
             try:
                 M = I.call_function(f, [fld], self_obj=obj)
             except XRaise as e:
                 r2.fail(f.qualname, key, f.file, f.lineno, f"{cname}.Assemble", f"dof_n={dof_n}: raises {e}")
+                continue
+            except Uninterpretable as e:
+                if "XTruncation" not in str(e):
+                    raise
+                r2.fail(f.qualname, key, f.file, f.lineno, f"{cname}.Assemble", f"dof_n={dof_n}, complex element arrays: {str(e).split('XTruncation: ')[-1]}: the assembled {'matrix' if bil else 'vector'} is not the scatter-add of what Integrate_e returns")
                 continue
             want = {}
             for e in range(2):
